@@ -14,6 +14,7 @@ import (
 	"sort"
 	"strconv"
 	"strings"
+	"sync"
 	"time"
 )
 
@@ -576,15 +577,103 @@ func firstComment(file string) string {
 	return ""
 }
 
-func cmdSelftest(args []string) int { return 2 }
+// cmdSelftest: the must-fail corpus.  Every /verif/selftest/mutants/*.patch is
+// applied to a scratch copy of /repo (outside /repo and /verif, removed
+// afterwards); the property check must then report every obligation listed in
+// the patch header (# expect: ...) as violated.
+func cmdSelftest(args []string) int {
+	fl := flag.NewFlagSet("selftest", flag.ExitOnError)
+	only := fl.String("m", "", "run only mutants whose file name contains this")
+	fl.Parse(args)
+	files, _ := filepath.Glob(filepath.Join(verifRoot, "selftest", "mutants", "*.patch"))
+	sort.Strings(files)
+	self, _ := os.Executable()
+	bad := 0
+	var mu sync.Mutex
+	var wg sync.WaitGroup
+	sem := make(chan struct{}, 4)
+	for _, pf := range files {
+		if *only != "" && !strings.Contains(filepath.Base(pf), *only) {
+			continue
+		}
+		wg.Add(1)
+		sem <- struct{}{}
+		go func(pf string) {
+			defer wg.Done()
+			defer func() { <-sem }()
+			data, _ := os.ReadFile(pf)
+			var props, expects []string
+			for _, l := range strings.Split(string(data), "\n") {
+				if strings.HasPrefix(l, "# property:") {
+					props = append(props, strings.Fields(strings.TrimPrefix(l, "# property:"))...)
+				}
+				if strings.HasPrefix(l, "# expect:") {
+					expects = append(expects, strings.TrimSpace(strings.TrimPrefix(l, "# expect:")))
+				}
+			}
+			scratch, _ := os.MkdirTemp("", "ebu-selftest-")
+			tmpVerif, _ := os.MkdirTemp("", "ebu-selftest-verif-")
+			run := func(dir string, name string, a ...string) (string, error) {
+				c := exec.Command(name, a...)
+				c.Dir = dir
+				c.Env = append(os.Environ(), "GOFLAGS=-mod=mod", "GOPROXY=off", "GOTOOLCHAIN=auto")
+				out, err := c.CombinedOutput()
+				return string(out), err
+			}
+			run("/", "rsync", "-a", "--exclude", ".git", repoRoot+"/", scratch+"/")
+			for _, d := range []string{"contracts", "expected", "lemmas", "replay"} {
+				run("/", "rsync", "-a", filepath.Join(verifRoot, d), tmpVerif+"/")
+			}
+			run("/", "cp", filepath.Join(verifRoot, "known_findings.json"), tmpVerif+"/")
+			status := "ok"
+			detail := ""
+			if out, err := run(scratch, "patch", "-p1", "-i", pf); err != nil {
+				status, detail = "PATCH-FAILED", out
+			} else if out, err := run(scratch, "go", "build", "./..."); err != nil {
+				status, detail = "BUILD-FAILED", out
+			} else {
+				for _, p := range props {
+					c := exec.Command(self, "check", "-p", p)
+					c.Env = append(os.Environ(), "EBU_REPO="+scratch, "EBU_VERIF="+tmpVerif)
+					out, _ := c.CombinedOutput()
+					for _, e := range expects {
+						if !strings.Contains(string(out), "obligation "+e+":") && !strings.Contains(string(out), "no longer generated: "+e) {
+							// an expectation may belong to another property of this mutant
+							continue
+						}
+						detail += " caught[" + p + "]:" + e
+					}
+				}
+				for _, e := range expects {
+					if !strings.Contains(detail, ":"+e) {
+						status = "MISSED"
+						detail += " NOT-CAUGHT:" + e
+					}
+				}
+			}
+			mu.Lock()
+			if status != "ok" {
+				bad++
+			}
+			fmt.Printf("%-12s %s %s\n", status, filepath.Base(pf), detail)
+			mu.Unlock()
+			os.RemoveAll(scratch)
+			os.RemoveAll(tmpVerif)
+		}(pf)
+	}
+	wg.Wait()
+	if bad > 0 {
+		return 1
+	}
+	return 0
+}
 
 // coverUnsat: true iff the assumptions of a cover are definitely unsatisfiable.
-// The quantifier-free relaxation is tried first (sat there settles it).
+// The FULL query (with every quantified axiom) is used: an inconsistent axiom
+// or precondition makes everything vacuously true, and only the full query can
+// show it.  Only a definite `unsat` counts.
 func coverUnsat(dir string, c *Oblig, decls string) bool {
 	os.MkdirAll(dir, 0o755)
-	// The FULL query (with every quantified axiom): an inconsistent axiom or
-	// precondition makes everything vacuously true, and only the full query
-	// can show it.  Only a definite `unsat` counts.
 	var b strings.Builder
 	b.WriteString(smtHeader)
 	b.WriteString(decls)
